@@ -185,3 +185,47 @@ Definition implied_type (s : pstate) : res Z :=
   if Nat.eqb (length es) (count_str es) || Nat.eqb (length es) 0 then Ok 1%Z
   else if Nat.eqb (length es) (count_rule es) then Ok 2%Z
   else Raise EPolicyCreation.
+
+(* ------------------------------------------------------------------ *)
+(* 3. Policy.from_json, after the JSON text has been parsed into properties *)
+
+Definition n_rules : pstr := [114; 117; 108; 101; 115]%N.
+
+Fixpoint del_key (k : pstr) (l : list (pstr * aval)) : list (pstr * aval) :=
+  match l with
+  | [] => []
+  | (k', v) :: r => if pstr_eqb k k' then del_key k r else (k', v) :: del_key k r
+  end.
+
+Definition known_ctor_key (k : pstr) : bool :=
+  pstr_eqb k n_uid || pstr_eqb k n_subjects || pstr_eqb k n_effect || pstr_eqb k n_resources ||
+  pstr_eqb k n_actions || pstr_eqb k n_context || pstr_eqb k n_rules || pstr_eqb k n_description.
+
+Definition prop_or (k : pstr) (props : list (pstr * aval)) (d : aval) : aval :=
+  match lookup k props with Some v => v | None => d end.
+
+(* Policy.from_json: uid is required; context <- context | rules | {}; a stored type is dropped; then the constructor is called with the remaining properties *)
+Definition from_props (props : list (pstr * aval)) : res pstate :=
+  match lookup n_uid props with
+  | None => Raise EPolicyCreation
+  | Some uid =>
+      let context_rules :=
+        match lookup n_context props with
+        | Some c => c
+        | None => match lookup n_rules props with Some r => r | None => ACtx [] end
+        end in
+      let props1 := if has_key n_context props then props
+                    else del_key n_rules props in          (* `del props['rules']` only in the elif branch *)
+      let props2 := (n_context, context_rules) :: del_key n_context props1 in
+      let props3 := del_key n_type props2 in
+      if forallb (fun kv => known_ctor_key (fst kv)) props3 then
+        ctor {| c_uid := uid;
+                c_subjects := prop_or n_subjects props3 (ASeq true []);
+                c_effect := prop_or n_effect props3 (AV (VStr s_deny));
+                c_resources := prop_or n_resources props3 (ASeq true []);
+                c_actions := prop_or n_actions props3 (ASeq true []);
+                c_context := context_rules;
+                c_rules := prop_or n_rules props3 (AV VNone);
+                c_description := prop_or n_description props3 (AV VNone) |}
+      else Raise ETypeError                                   (* unexpected keyword argument *)
+  end.
